@@ -35,7 +35,8 @@ From Gen Require Import C09Facts.
 Import ListNotations.
 Local Open Scope string_scope.
 """
-H_CELL = HEADER + "Definition check := check_column gen_infer_chain gen_lit_chain gen_litfn_chain gen_tovalue_chain.\n"
+H_CELL = HEADER + ("Definition check := check_column gen_infer_chain gen_lit_chain gen_litfn_chain gen_tovalue_chain "
+                   "gen_cells_float_via_lit gen_sample_first_non_none.\n")
 H_STMT = HEADER + "Definition check := check_stmt gen_lit_chain gen_litfn_chain.\n"
 H_RS = HEADER + "Definition check := check_render QS.\n"
 H_RI = HEADER + "Definition check := check_render QI.\n"
@@ -229,7 +230,7 @@ def gen_leaf(t, r: random.Random, strings, top=False):
     if t == "double":
         return r.choice([0.0, -0.0, 1.5, 0.1, 1 / 3, 1e308, 5e-324, 1.7976931348623157e308, 1e16, 1e-5, 123456.789,
                          float("nan"), r.uniform(-1e6, 1e6), r.random() * 10 ** r.randint(-300, 300), -2.5e-7]
-                        + ([float("inf"), float("-inf")] if top else []))
+                        + [float("inf"), float("-inf")])
     if t == "string":
         return r.choice(strings)
     if t == "binary":
@@ -269,12 +270,14 @@ def first_ok(v, t) -> bool:
     return all(first_ok(x, tx) for x, (_, tx) in zip(v, t[1]))
 
 
-COLS_V = [("b", "boolean"), ("i", "bigint"), ("f", "double"), ("s", "string"), ("y", "binary"), ("d", "date"),
-          ("t", "timestamp"), ("l", ("array", "bigint")), ("ls", ("array", "string")), ("lf", ("array", "double")),
+# declared names mix upper and lower case on purpose: df.schema / df.columns / Row fields must keep them as written
+COLS_V = [("B", "boolean"), ("i", "bigint"), ("fLt", "double"), ("Str", "string"), ("y", "binary"), ("D", "date"),
+          ("tS", "timestamp"), ("l", ("array", "bigint")), ("LS", ("array", "string")), ("lf", ("array", "double")),
           ("r", ("struct", [("x", "bigint"), ("y", "string")])),
-          ("lr", ("array", ("struct", [("p", "string"), ("q", "double")]))),
-          ("rl", ("struct", [("a", ("array", "double")), ("c", ("struct", [("e", "date"), ("g", "boolean")]))])),
+          ("Lr", ("array", ("struct", [("p", "string"), ("q", "double")]))),
+          ("rL", ("struct", [("a", ("array", "double")), ("c", ("struct", [("e", "date"), ("g", "boolean")]))])),
           ("ll", ("array", ("array", "string")))]
+COLS_S = [("Id", "bigint"), ("userName", "string")]
 
 
 def spark_names_ok(ddl_cols):
@@ -480,6 +483,11 @@ def run(ctx: core.Ctx):
     n_eval = 0
     nontrivial = set()
 
+    # ================================================================ (f) corpus first: PySpark recordings, which
+    # contain the witnesses of every known and every repaired finding
+    n_orc = oracle_cases(ctx, session, F, T, Row)
+    ctx.log(f"(f) {n_orc} recorded PySpark cases (corpus)")
+
     # ================================================================ (a) the environment definitions
     items, meta = [], []
     for s in all_strings:
@@ -573,6 +581,11 @@ def run(ctx: core.Ctx):
             df = session.createDataFrame(data, schema)
             got = df.collect()
             sql = px.log[0] if px.log else None
+            want_names = expected_names(kind, form, cols)
+            if list(df.columns) != want_names:
+                ctx.deviation(f"C09/names-differ:{kind}:{form}", f"df.columns {list(df.columns)} != declared {want_names}",
+                              {"kind": kind, "form": form, "declared_names": want_names, "df.columns": list(df.columns),
+                               "data": repr(data[:2])[:600], "schema": repr(schema)[:600] if not hasattr(schema, "fields") else schema.simpleString()})
             sch = None
             if want_schema:
                 sch = df.schema
@@ -594,13 +607,15 @@ def run(ctx: core.Ctx):
             for r in got[:1]:
                 if list(r.__fields__) != names:
                     ctx.deviation(f"C09/names-differ:{kind}:{form}", f"collect() field names {list(r.__fields__)} != declared {names}",
-                                  {"kind": kind, "form": form, "cols": [c for c, _ in cols], "got_names": list(r.__fields__)})
+                                  {"kind": kind, "form": form, "declared_names": names, "row_fields": list(r.__fields__),
+                                   "data": repr(make_rows(kind, cols, rows[:1]))[:600],
+                                   "schema": repr(make_schema(form, cols, T))[:600] if form != "structtype" else make_schema(form, cols, T).simpleString()})
 
     # ---- profile S: every adversarial string through every container kind x schema form
     per = 25
     clean = [s for s in all_strings if "\x00" not in s]
     batches = [clean[i:i + per] for i in range(0, len(clean), per)]
-    cols_s = [("i", "bigint"), ("s", "string")]
+    cols_s = COLS_S
     n_df = 0
     for kind in KINDS:
         for form in FORMS:
@@ -610,15 +625,21 @@ def run(ctx: core.Ctx):
                 else batches[(KINDS.index(kind) * 5 + FORMS.index(form)) % 3::3]
             for bi, b in enumerate(bl):
                 rows = [(j, s) for j, s in enumerate(b)]
-                got, exc, sql, sch, _ = run_df(kind, form, cols_s, rows, want_schema=False)
+                got, exc, sql, sch, _ = run_df(kind, form, cols_s, rows, want_schema=(bi == 0))
                 n_df += 1
+                if sch is not None and [f.name for f in sch] != expected_names(kind, form, cols_s):
+                    ctx.deviation(f"C09/schema-names-differ:{kind}:{form}",
+                                  f"df.schema names {[f.name for f in sch]} != declared {expected_names(kind, form, cols_s)}",
+                                  {"kind": kind, "form": form, "declared_names": expected_names(kind, form, cols_s),
+                                   "schema_names": [f.name for f in sch], "data": repr(make_rows(kind, cols_s, rows[:1])),
+                                   "schema": repr(make_schema(form, cols_s, T))[:300] if form != "structtype" else make_schema(form, cols_s, T).simpleString()})
                 hist_kind[kind] += 1
                 hist_form[form] += 1
                 if got is None:
                     # isolate: one string per DataFrame
                     for j, s in enumerate(b):
                         g1, e1, _, _, _ = run_df(kind, form, cols_s, [(j, s)])
-                        record_cells(kind, form, cols_s, [(j, s)], g1, {"profile": "S", "exc": e1}, only=None if g1 is not None else ["s"])
+                        record_cells(kind, form, cols_s, [(j, s)], g1, {"profile": "S", "exc": e1}, only=None if g1 is not None else ["userName"])
                     continue
                 record_cells(kind, form, cols_s, rows, got, {"profile": "S", "exc": None})
                 # (c) statement text, for a share of the batches
@@ -633,7 +654,7 @@ def run(ctx: core.Ctx):
         combos = [("tuple", "inferred"), (KINDS[si % 4], FORMS[(si // 4) % 5])]
         for kind, form in dict.fromkeys(combos):
             g1, e1, _, _, _ = run_df(kind, form, cols_s, [(0, s)])
-            record_cells(kind, form, cols_s, [(0, s)], g1, {"profile": "S-nul", "exc": e1}, only=None if g1 is not None else ["s"])
+            record_cells(kind, form, cols_s, [(0, s)], g1, {"profile": "S-nul", "exc": e1}, only=None if g1 is not None else ["userName"])
     ctx.log(f"(b) profile S: {n_df} DataFrames, {len(cell_items)} distinct columns so far, {len(stmt_items)} statements to lex")
 
     # ---- profile V: typed values incl. nested, per-type generators
@@ -645,14 +666,11 @@ def run(ctx: core.Ctx):
         rows = []
         while len(rows) < n_rows:
             row = tuple(gen_value(t, rnd, vstrings, depth=(0 if not rows else 1)) for _, t in COLS_V)
-            if si % 2 == 0 and contains(list(row), lambda x: isinstance(x, float) and math.isnan(x)):
-                continue    # every other row set is NaN-free (the domain of column_roundtrip)
-            if not rows:
-                if not all(first_ok(v, t) for v, (_, t) in zip(row, COLS_V)):
-                    continue
-                if any(contains(v, lambda x: isinstance(x, float) and math.isinf(x)) for v in row):
-                    continue
+            if not rows and not all(first_ok(v, t) for v, (_, t) in zip(row, COLS_V)):
+                continue    # the value the type is sampled from determines the whole type
             rows.append(row)
+        if si % 2 == 1:
+            rows.insert(0, tuple(None for _ in COLS_V))    # the type is sampled from the first value that is not None
         for kind in KINDS:
             for form in FORMS:
                 cols = COLS_V if form != "ddl" else [c for c in COLS_V if spark_names_ok([c])]
@@ -739,11 +757,11 @@ def run(ctx: core.Ctx):
             got = m["gots"][ri]
             if v is not None and not (isinstance(v, str) and v == "x"):
                 nontrivial.add(py2coq(v) + "|" + m["kind"] + "|" + m["form"])
-            first = m["vals"][0]
+            first = next((y for y in m["vals"] if y is not None), None)   # the value the column type is sampled from
             if im and isp and ms and len(ctx.samples) >= 4:
                 continue
             desc = {"kind": m["kind"], "form": m["form"], "column": m["col"], "type": m["type"] if isinstance(m["type"], str) else ty2spark(m["type"]),
-                    "first_row_value": repr(first)[:300], "value": repr(v)[:600], "row": ri,
+                    "first_row_value": repr(first)[:300], "value": repr(v)[:600], "row": ri, "rows_before": repr(m["vals"][:ri])[:300] if m["vals"][:1] == [None] else None,
                     "column_values": repr(m["vals"])[:1500] if col_has_nan else None,
                     "collect_returned": (repr(got[0])[:600] + " : " + type(got[0]).__name__) if got is not None else f"raised {m.get('exc')}",
                     "expected": repr(py_expected(v))[:600], "select_lit": m["sel"],
@@ -844,8 +862,6 @@ def run(ctx: core.Ctx):
         if x is False:
             ctx.deviation(f"C09/schema-type-differs:{m['declared']}", f"df.schema reports {m['reported']} for {m['declared']}", m)
 
-    # ================================================================ (f) PySpark recordings
-    n_orc = oracle_cases(ctx, session, F, T, Row)
     n_eval += n_orc
 
     sig_hist = {}
@@ -865,7 +881,7 @@ def run(ctx: core.Ctx):
         "histogram_cell_value_kind": hist_type, "string_sets": hist,
     })
     ctx.assumptions += [
-        "env_ok (Pipeline.v): 32 named sentences about DuckDB 1.2.2's evaluation of leaf literals, its CAST on leaf values and "
+        "env_ok (Pipeline.v): 30 named sentences about DuckDB 1.2.2's evaluation of leaf literals, its CAST on leaf values and "
         "the Python client's conversions (float text<->binary, date/time text, TIMESTAMPTZ under a UTC session) -- premises of "
         "value_roundtrip/untyped_roundtrip, satisfiable (ref_env_ok), exercised by T3 on every leaf kind",
         "Lex.render_quoted / Lex.scan / Lex.lex are my definitions of sqlglot 26.14's DuckDB string/identifier escaping and of "
